@@ -9,22 +9,22 @@ namespace Emerge.Reader
 open Emerge
 
 /-- one `next()` below the end of the source, in terms of the stream state -/
-theorem next_of_inv2 {src len n} (hnf : NulFree src len) {s : RState} {a : AState} {g : Ghost}
+theorem next_of_inv2 {src len n} {s : RState} {a : AState} {g : Ghost}
     (h : Inv2 src len n s a g) (hk : a.k < len) :
     ∃ g', (next src len n s).1 = some (src a.k) ∧ Inv2 src len n (next src len n s).2 ⟨a.k + 1, a.p - 1, a.kb⟩ g' := by
   have hs : aStep src len n a .next = some (.byte (src a.k), ⟨a.k + 1, a.p - 1, a.kb⟩) := by simp [aStep, hk]
-  obtain ⟨e, g', hinv⟩ := step_refines hnf h .next hs
+  obtain ⟨e, g', hinv⟩ := step_refines h .next hs
   refine ⟨g', ?_, hinv⟩
   simp only [cStep] at e
   cases hn : (next src len n s).1 with
   | none => rw [hn] at e; cases e
   | some b => rw [hn] at e; cases e; rfl
 
-theorem withByte_step {src len n} (hnf : NulFree src len) {s : RState} {a : AState} {g : Ghost}
+theorem withByte_step {src len n} {s : RState} {a : AState} {g : Ghost}
     (h : Inv2 src len n s a g) (hk : a.k < len) (k : Nat → RState → RuneOut × RState) :
     ∃ g', withByte src len n s k = k (src a.k) (next src len n s).2 ∧
       Inv2 src len n (next src len n s).2 ⟨a.k + 1, a.p - 1, a.kb⟩ g' := by
-  obtain ⟨g', e, hinv⟩ := next_of_inv2 hnf h hk
+  obtain ⟨g', e, hinv⟩ := next_of_inv2 h hk
   refine ⟨g', ?_, hinv⟩
   unfold withByte
   generalize hr : next src len n s = r at e
@@ -35,7 +35,7 @@ theorem withByte_step {src len n} (hnf : NulFree src len) {s : RState} {a : ASta
 
 /-- **`Next` returns the rune at the cursor.** If the UTF-8 encoding of the scalar value `r` lies in the source at the
     cursor, `Next` returns `r` with the length of that encoding and leaves the reader at the cursor behind it. -/
-theorem nextRune_refines {src len n} (hnf : NulFree src len) {s : RState} {a : AState} {g : Ghost}
+theorem nextRune_refines {src len n} {s : RState} {a : AState} {g : Ghost}
     (h : Inv2 src len n s a g) (r : Nat) (hr : Utf8.Scalar r)
     (hfit : a.k + (Utf8.encodeRune r).length ≤ len)
     (hat : ∀ i, i < (Utf8.encodeRune r).length → src (a.k + i) = (Utf8.encodeRune r).getD i 0) :
@@ -47,7 +47,7 @@ theorem nextRune_refines {src len n} (hnf : NulFree src len) {s : RState} {a : A
   by_cases c1 : r < 0x80
   · simp only [c1, if_true, List.length_cons, List.length_nil] at hfit hat ⊢
     have e0 : src a.k = r := by have := hat 0 (by omega); simpa using this
-    obtain ⟨g1, w1, i1⟩ := withByte_step hnf h (by omega) _
+    obtain ⟨g1, w1, i1⟩ := withByte_step h (by omega) _
     unfold nextRune
     rw [w1, e0]
     simp only [c1, if_true]
@@ -56,8 +56,8 @@ theorem nextRune_refines {src len n} (hnf : NulFree src len) {s : RState} {a : A
     · simp only [c1, c2, if_true, if_false, List.length_cons, List.length_nil] at hfit hat ⊢
       have e0 : src a.k = 0xC0 + r / 64 := by have := hat 0 (by omega); simpa using this
       have e1 : src (a.k + 1) = 0x80 + r % 64 := by have := hat 1 (by omega); simpa using this
-      obtain ⟨g1, w1, i1⟩ := withByte_step hnf h (by omega) _
-      obtain ⟨g2, w2, i2⟩ := withByte_step hnf i1 (show a.k + 1 < len by omega) _
+      obtain ⟨g1, w1, i1⟩ := withByte_step h (by omega) _
+      obtain ⟨g2, w2, i2⟩ := withByte_step i1 (show a.k + 1 < len by omega) _
       unfold nextRune
       rw [w1, e0]
       have a1 : ¬ (0xC0 + r / 64 < 0x80) := by omega
@@ -78,9 +78,9 @@ theorem nextRune_refines {src len n} (hnf : NulFree src len) {s : RState} {a : A
         have e0 : src a.k = 0xE0 + r / 4096 := by have := hat 0 (by omega); simpa using this
         have e1 : src (a.k + 1) = 0x80 + r / 64 % 64 := by have := hat 1 (by omega); simpa using this
         have e2 : src (a.k + 1 + 1) = 0x80 + r % 64 := by have := hat 2 (by omega); simpa using this
-        obtain ⟨g1, w1, i1⟩ := withByte_step hnf h (by omega) _
-        obtain ⟨g2, w2, i2⟩ := withByte_step hnf i1 (show a.k + 1 < len by omega) _
-        obtain ⟨g3, w3, i3⟩ := withByte_step hnf i2 (show a.k + 1 + 1 < len by omega) _
+        obtain ⟨g1, w1, i1⟩ := withByte_step h (by omega) _
+        obtain ⟨g2, w2, i2⟩ := withByte_step i1 (show a.k + 1 < len by omega) _
+        obtain ⟨g3, w3, i3⟩ := withByte_step i2 (show a.k + 1 + 1 < len by omega) _
         unfold nextRune
         rw [w1, e0]
         have a1 : ¬ (0xE0 + r / 4096 < 0x80) := by omega
@@ -108,10 +108,10 @@ theorem nextRune_refines {src len n} (hnf : NulFree src len) {s : RState} {a : A
         have e1 : src (a.k + 1) = 0x80 + r / 4096 % 64 := by have := hat 1 (by omega); simpa using this
         have e2 : src (a.k + 1 + 1) = 0x80 + r / 64 % 64 := by have := hat 2 (by omega); simpa using this
         have e3 : src (a.k + 1 + 1 + 1) = 0x80 + r % 64 := by have := hat 3 (by omega); simpa using this
-        obtain ⟨g1, w1, i1⟩ := withByte_step hnf h (by omega) _
-        obtain ⟨g2, w2, i2⟩ := withByte_step hnf i1 (show a.k + 1 < len by omega) _
-        obtain ⟨g3, w3, i3⟩ := withByte_step hnf i2 (show a.k + 1 + 1 < len by omega) _
-        obtain ⟨g4, w4, i4⟩ := withByte_step hnf i3 (show a.k + 1 + 1 + 1 < len by omega) _
+        obtain ⟨g1, w1, i1⟩ := withByte_step h (by omega) _
+        obtain ⟨g2, w2, i2⟩ := withByte_step i1 (show a.k + 1 < len by omega) _
+        obtain ⟨g3, w3, i3⟩ := withByte_step i2 (show a.k + 1 + 1 < len by omega) _
+        obtain ⟨g4, w4, i4⟩ := withByte_step i3 (show a.k + 1 + 1 + 1 < len by omega) _
         unfold nextRune
         rw [w1, e0]
         have a1 : ¬ (0xF0 + r / 262144 < 0x80) := by omega
